@@ -38,7 +38,7 @@ def one(m):
         env = dict(os.environ, MSDM_REPO=wt, VERIF_REPLAY_DIR=f"/tmp/rp_mut_{mid}")
         cmd = [os.path.join(ROOT, "check"), pid, "--no-evidence"] + (["--props", props] if props else [])
         try:
-            r = subprocess.run(cmd, capture_output=True, text=True, timeout=1800, env=env)
+            r = subprocess.run(cmd, capture_output=True, text=True, timeout=7200, env=env)
             names = sorted({l.split()[1].rstrip(":") for l in r.stdout.splitlines() if l.startswith("violation ")})
             outcome = {0: "MISSED", 1: "caught", 2: "harness-error"}.get(r.returncode, f"exit {r.returncode}")
         except subprocess.TimeoutExpired:
